@@ -8,7 +8,7 @@ package main
 // Oracle (from the property text and the wire format only, never from the Coq
 // model): for every generated key set K
 //   (a) len(Marshal(K)) <= 8*|K| + 256, and
-//   (b) for prefixes P of 1, 100, 5000, 16000 arbitrary bytes (as far as the
+//   (b) for prefixes P of 1, 100, 5000, 8191, 8192, 9000, 16000 arbitrary bytes (as far as the
 //       keys stay within 16 KiB): |len(Marshal(P+K)) - len(Marshal(K))| <= c17PrefixBound.
 //
 // c17PrefixBound = 16, from the format: with P the root's single-branch run
@@ -354,6 +354,32 @@ func c17Shapes(maxCat int) []c17Shape {
 			ks = append(ks, strings.Repeat("\xff", 16384), strings.Repeat("\x00", 16384))
 			return ks
 		}, 200},
+		{"twin-16k", func(r *RNG, n int) []string {
+			// keys of exactly 16 KiB that differ in the last byte only (n = 2..16 of them):
+			// one inner node after a single-branch run of 16383 bytes
+			if n > 16 {
+				n = 16
+			}
+			x := randBytes(r, 16383)
+			ks := []string{}
+			for i := 0; i < n; i++ {
+				ks = append(ks, x+string([]byte{byte(i * 16)}))
+			}
+			return ks
+		}, 16},
+		{"long-common-run", func(r *RNG, n int) []string {
+			// a shared run of 8 KiB..16 KiB followed by short distinct tails
+			if n > 300 {
+				n = 300
+			}
+			run := []int{8191, 8192, 8193, 9000, 12000, 16000, 16380}[r.Intn(7)]
+			x := randBytes(r, run)
+			ks := []string{}
+			for i := 0; i < n; i++ {
+				ks = append(ks, x+randBytes(r, 1+r.Intn(3)))
+			}
+			return ks
+		}, 300},
 		{"plateau", func(r *RNG, n int) []string {
 			// root without a step; 127 children with a step each (ranks 1..127); below them only
 			// step-free binary half-byte nodes: every later rank-index entry equals 127.
@@ -385,6 +411,7 @@ func c17ShortShape(k int) c17Shape {
 
 type c17Replay struct {
 	Property string   `json:"property"`
+	Opt      string   `json:"opt_dedup_inner_leaf_complete"`
 	Shape    string   `json:"shape"`
 	N        int      `json:"n_param"`
 	Seed     uint64   `json:"shape_seed"`
@@ -399,13 +426,39 @@ type c17Replay struct {
 	How      string   `json:"how"`
 }
 
-func c17Build(keys []string) (*trie.SlimTrie, error) {
-	// default options (nil pointers: no stored prefixes), nil values
-	return trie.NewSlimTrie(encode.Dummy{}, keys, nil)
+// c17Spelling is one raw spelling of "filter mode": DedupValue nil/false/true
+// (irrelevant without values), InnerPrefix, LeafPrefix, Complete each nil or an
+// explicit false. -1 nil, 0 false, 1 true (the TrieCase convention).
+type c17Spelling [4]int8
+
+func c17Spellings() []c17Spelling {
+	out := []c17Spelling{}
+	for _, d := range []int8{-1, 0, 1} {
+		for _, i := range []int8{-1, 0} {
+			for _, l := range []int8{-1, 0} {
+				for _, cc := range []int8{-1, 0} {
+					out = append(out, c17Spelling{d, i, l, cc})
+				}
+			}
+		}
+	}
+	return out
 }
 
-func c17Size(keys []string) (int, *trie.SlimTrie, error) {
-	st, err := c17Build(keys)
+func (o c17Spelling) String() string { return optc(o[0]) + optc(o[1]) + optc(o[2]) + optc(o[3]) }
+
+func c17Build(o c17Spelling, keys []string) (*trie.SlimTrie, error) {
+	// no stored prefixes by any spelling, nil values
+	if o == (c17Spelling{-1, -1, -1, -1}) {
+		// the variadic argument omitted altogether
+		return trie.NewSlimTrie(encode.Dummy{}, keys, nil)
+	}
+	return trie.NewSlimTrie(encode.Dummy{}, keys, nil,
+		trie.Opt{DedupValue: optPtr(o[0]), InnerPrefix: optPtr(o[1]), LeafPrefix: optPtr(o[2]), Complete: optPtr(o[3])})
+}
+
+func c17Size(o c17Spelling, keys []string) (int, *trie.SlimTrie, error) {
+	st, err := c17Build(o, keys)
 	if err != nil {
 		return 0, nil, err
 	}
@@ -503,8 +556,8 @@ type c17Stat struct {
 func init() {
 	register("C17", func(c *Ctx) {
 		c.Or.Rule = "cases: one PRNG stream from VERIF_SEED; a case = (shape, size parameter n, shape seed) -> a sorted list of distinct keys, built with default options (no stored prefixes) and nil values; " +
-			"shapes: binary caterpillars (plain / varied label pairs with runs / forests), long-step trees (every inner node after a run of its own length; runs of thousands of bytes), fan-out-11 byte trees (all big nodes; big prefix then binary), all-distinct 17-bit label bitmaps, regular sets aimed at ShortSize 1..10, random sets, keys of 0..16 KiB, rank-plateau sets, and the small generators of the trie properties; " +
-			"each case is also built with prefixes of 1, 100, 5000, 16000 arbitrary bytes (while keys stay <= 16 KiB and the key material within the tier budget); non-trivial = at least 2 keys; distinct = distinct (shape, keys digest)"
+			"shapes: binary caterpillars (plain / varied label pairs with runs / forests), long-step trees (every inner node after a run of its own length; runs of thousands of bytes), fan-out-11 byte trees (all big nodes; big prefix then binary), all-distinct 17-bit label bitmaps, regular sets aimed at ShortSize 1..10, random sets, keys of 0..16 KiB, rank-plateau sets, 16 KiB twins and shared runs of 8..16 KiB, and the small generators of the trie properties; " +
+			"each case is built with one of the 24 raw option spellings of filter mode (DedupValue nil/false/true; InnerPrefix, LeafPrefix, Complete nil or explicit false; all nil = options omitted), in turn; each case is also built with prefixes of 1, 100, 5000, 8191, 8192, 9000, 16000 arbitrary bytes (while keys stay <= 16 KiB and the key material within the tier budget); non-trivial = at least 2 keys; distinct = distinct (shape, keys digest)"
 		// caterpillar depth (= number of keys; key material grows quadratically)
 		shapes := c17Shapes(c.N(6000, 16000))
 		// ShortSize 1 cannot be chosen (no inner node has fewer than two labels)
@@ -525,6 +578,7 @@ func init() {
 		prefMaterial := c.N(6<<20, 256<<20)
 
 		caseNo := 0
+		spellings := c17Spellings()
 		runCase := func(shape c17Shape, n int, forModel bool) {
 			if n > shape.maxN {
 				n = shape.maxN
@@ -533,6 +587,9 @@ func init() {
 			keys := uniqSorted(shape.gen(NewRNG(seed), n))
 			caseNo++
 			id := fmt.Sprintf("c17_%d", caseNo)
+			// every spelling in turn (offset by the seed), so that each is used by every kind of case
+			spell := spellings[(caseNo+int(c.Seed%24)+caseNo/len(spellings))%len(spellings)]
+			c.Or.Count("opt:" + spell.String())
 			total, maxLen := 0, 0
 			for _, k := range keys {
 				total += len(k)
@@ -546,7 +603,7 @@ func init() {
 			c.Or.Count("keys:" + bucket17(nk))
 			c.Or.Count("maxlen:" + bucketLen(maxLen))
 			rp := func(how string, size, sizeP int, p string, bound int) c17Replay {
-				r := c17Replay{Property: "C17", Shape: shape.name, N: n, Seed: seed, Keys: nk, MaxLen: maxLen, Size: size, SizeP: sizeP, Bound: bound, How: how, PrefLen: len(p)}
+				r := c17Replay{Property: "C17", Opt: spell.String(), Shape: shape.name, N: n, Seed: seed, Keys: nk, MaxLen: maxLen, Size: size, SizeP: sizeP, Bound: bound, How: how, PrefLen: len(p)}
 				if len(p) <= 64 {
 					r.Prefix = hxs(p)
 				} else {
@@ -569,13 +626,13 @@ func init() {
 				modelBudget -= cost
 				c.Or.Count("model-cases")
 				w := c.Cases()
-				fmt.Fprintf(w, "T %s\n", id)
+				fmt.Fprintf(w, "T %s %s %s %s %s\n", id, optc(spell[0]), optc(spell[1]), optc(spell[2]), optc(spell[3]))
 				for _, k := range keys {
 					fmt.Fprintf(w, "K %s\n", hxs(k))
 				}
 				fmt.Fprintf(w, "E\n")
 			}
-			size, st, err := c17Size(keys)
+			size, st, err := c17Size(spell, keys)
 			if emit {
 				w := c.Impl()
 				fmt.Fprintf(w, "C %s\n", id)
@@ -625,7 +682,7 @@ func init() {
 			}
 			// prefix independence
 			pr := NewRNG(seed ^ 0x5bd1e995)
-			for _, pl := range []int{1, 100, 5000, 16000} {
+			for _, pl := range []int{1, 100, 5000, 8191, 8192, 9000, 16000} {
 				if maxLen+pl > 16384 || (pl > 100 && (nk*pl > prefMaterial/4)) {
 					c.Or.Count(fmt.Sprintf("prefix%d:skipped", pl))
 					continue
@@ -639,13 +696,13 @@ func init() {
 					prefixBudget -= costP
 					c.Or.Count("model-cases")
 					w := c.Cases()
-					fmt.Fprintf(w, "T %s\nP %s\n", pid, hxs(p))
+					fmt.Fprintf(w, "T %s %s %s %s %s\nP %s\n", pid, optc(spell[0]), optc(spell[1]), optc(spell[2]), optc(spell[3]), hxs(p))
 					for _, k := range keys {
 						fmt.Fprintf(w, "K %s\n", hxs(k))
 					}
 					fmt.Fprintf(w, "E\n")
 				}
-				sizeP, stP, err := c17Size(pk)
+				sizeP, stP, err := c17Size(spell, pk)
 				if emitP {
 					w := c.Impl()
 					fmt.Fprintf(w, "C %s\n", pid)
@@ -696,8 +753,8 @@ func init() {
 					if !reported[key+shape.name] {
 						reported[key+shape.name] = true
 						classify := func(ks []string) (int, int, string, bool) {
-							s1, t1, e1 := c17Size(ks)
-							s2, t2, e2 := c17Size(c17Prefixed(p, ks))
+							s1, t1, e1 := c17Size(spell, ks)
+							s2, t2, e2 := c17Size(spell, c17Prefixed(p, ks))
 							if e1 != nil || e2 != nil {
 								return 0, 0, "", false
 							}
